@@ -33,6 +33,9 @@ struct HalfaggSim {
         Bytes agg; int n = 0;               // RAM copy of persisted state
         int step = 0; int round = 0; bool sent_final = false; bool used_altered = false;
     } A;
+    // two more aggregation sessions of the same node that share ONE work buffer and advance in lockstep with the main one
+    struct Shadow { std::vector<ref::Triple> all, used; Bytes agg; };
+    Shadow sh[2]; bool shadows = false; Buf *work = nullptr;
     bool verdict_seen = false;
     Bytes v_agg; bool have_agg = false, agg_intact = false; Bytes v_list; bool have_list = false, list_intact = false;
 
@@ -92,6 +95,32 @@ struct HalfaggSim {
         out->assign(buf.p(), buf.p() + len);
         return true;
     }
+    void shadow_step(size_t n_before, size_t n_new) {
+        if (!shadows || !work) return;
+        for (int k = 0; k < 2 && r.ok; k++) {
+            Shadow &S = sh[k];
+            if (S.used.size() != n_before || n_before + n_new > S.all.size()) continue;
+            size_t ntot = n_before + n_new;
+            std::vector<secp256k1_xonly_pubkey> pks(ntot ? ntot : 1); Bytes msgs(32 * (ntot ? ntot : 1)), sigs(64 * (n_new ? n_new : 1));
+            bool okp = true;
+            for (size_t i = 0; i < ntot; i++) { okp = okp && L01(secp256k1_xonly_pubkey_parse(ctx, &pks[i], S.all[i].pk)); memcpy(&msgs[32 * i], S.all[i].msg, 32); }
+            for (size_t i = 0; i < n_new; i++) memcpy(&sigs[64 * i], S.all[n_before + i].sig, 64);
+            if (!okp) return;
+            // the session's persisted aggregate is copied into the shared work buffer, extended there, and copied out again
+            memset(work->p(), 0xEE, work->n);
+            if (!S.agg.empty()) memcpy(work->p(), S.agg.data(), S.agg.size());
+            size_t len = work->n;
+            MonMark mk = mon_mark();
+            int ok = L01(secp256k1_schnorrsig_inc_aggregate(ctx, work->p(), &len, pks.data(), msgs.data(), sigs.data(), n_before, n_new));
+            r.cmp();
+            if (!ok || !mon_quiet_since(mk) || len != 32 * (ntot + 1) || !work->intact()) { r.violate("C17", "shadow_session", "secp256k1_schnorrsig_inc_aggregate", "aggregation in the shared work buffer failed"); return; }
+            for (size_t i = 0; i < n_new; i++) S.used.push_back(S.all[n_before + i]);
+            S.agg.assign(work->p(), work->p() + len);
+            Bytes mo; ref::halfagg_aggregate(S.used, &mo);
+            if (mo != S.agg) { r.violate("C17", "incremental_mismatch", "secp256k1_schnorrsig_inc_aggregate", "session " + std::to_string(k + 2) + " of the same node (shared work buffer, n_before " + std::to_string(n_before) + ", n_new " + std::to_string(n_new) + "): aggregate differs from the model - the result depends on what the buffer was used for before"); return; }
+            r.probe("shadow_steps");
+        }
+    }
     void agg_try_extend(bool allow_empty) {
         if (A.sent_final) return;
         // contiguous batch starting at the current count
@@ -122,6 +151,12 @@ struct HalfaggSim {
         r.cmp();
         if (mo != A.agg) { r.violate("C17", "incremental_mismatch", "secp256k1_schnorrsig_inc_aggregate", "after step " + std::to_string(A.step) + " (n=" + std::to_string(A.n) + ", split point " + std::to_string(A.n - (int)news.size()) + ") aggregate " + hex(A.agg).substr(0, 48) + ".. != model " + hex(mo).substr(0, 48) + ".."); return; }
         r.cover.insert("split:" + std::to_string(A.n - (int)news.size()) + "+" + std::to_string(news.size()));
+        { // the two extra sessions take the same batch in two halves, alternating on the shared buffer:
+          // A(nb -> nb+h), B(nb -> nb+h), A(nb+h -> n), B(nb+h -> n)
+          size_t nb = A.used.size() - news.size(), h = news.size() / 2;
+          if (h) { shadow_step(nb, h); if (r.ok) shadow_step(nb + h, news.size() - h); }
+          else shadow_step(nb, news.size());
+          if (!r.ok) return; }
         agg_persist();
         if (A.n >= n) { agg_finish(); return; }
         // an explicitly planned empty batch (n_new = 0) right after this step
@@ -225,6 +260,15 @@ struct HalfaggSim {
             if (!L01(secp256k1_schnorrsig_sign32(ctx, t.sig, t.msg, &kps[i % nk], aux))) { r.violate("C17", "setup", "secp256k1_schnorrsig_sign32", "signing failed"); cleanup(); return; }
             truth.push_back(t);
         }
+        shadows = p.c("shadow") && n > 0;
+        Buf workbuf(32 * (n + 2));
+        work = &workbuf;
+        for (int k = 0; k < 2 && shadows; k++)
+            for (int i = 0; i < n; i++) {
+                ref::Triple t; memcpy(t.pk, xs[(i + k + 1) % nk].data(), 32); fresh32(t.msg);
+                if (!L01(secp256k1_schnorrsig_sign32(ctx, t.sig, t.msg, &kps[(i + k + 1) % nk], NULL))) { r.violate("C17", "setup", "secp256k1_schnorrsig_sign32", "signing failed"); cleanup(); return; }
+                sh[k].all.push_back(t);
+            }
         net.init(&p, &r, KN);
         net.on_deliver = [&](const Msg &m) { if (!r.ok) return; if (m.to == 0) agg_on(m); else if (m.to == 1) { if (m.kind == K_NEED) signer_send((int)std::min<int64_t>(std::max<int64_t>(0, m.sid), n), m.attempt); } else ver_on(m); };
         net.on_timer = [&](int, int tag) {
@@ -268,7 +312,7 @@ static Plan halfagg_generate(uint64_t seed, int tier) {
     Plan p;
     p.cfg["inseed"] = (int64_t)(g.next() >> 1);
     int n = g.chance(1, 10) ? 0 : (g.chance(1, 8) ? (int)g.range(13, tier ? 64 : 24) : (int)g.range(1, 12));
-    p.cfg["n"] = n; p.cfg["nkeys"] = (int64_t)g.range(1, 4); p.cfg["sloppy"] = g.chance(1, 5); p.cfg["comp"] = g.chance(1, 5);
+    p.cfg["n"] = n; p.cfg["nkeys"] = (int64_t)g.range(1, 4); p.cfg["sloppy"] = g.chance(1, 5); p.cfg["comp"] = g.chance(1, 5); p.cfg["shadow"] = g.chance(1, 3);
     // delivery schedule of the triples = the split of the incremental aggregation
     int style = (int)g.below(4);
     for (int i = 0; i < n; i++) {
